@@ -126,6 +126,17 @@ def derived(h, which='conjugate', n=2, maxlen=2):
     if which == 'copy':
         new = representation.Representation(rep)
         f = lambda M: M
+        # the copy is independent: re-assigning a generator of the copy (or of a wrapped copy) leaves the original alone
+        C = h.arr('c', (n, n))
+        h.assume(_det(C) != 0, 'invertible')
+        cp = representation.Representation(rep)
+        cp["a"] = C.copy()
+        h.eq("original unchanged by assignment to a copy", rep["a"], A)
+        h.eq("original inverse unchanged by assignment to a copy", rep["A"], inv(A), validate=False)
+        h.eq("copy carries the new generator", cp["ab"], C @ B, validate=False)
+        pw = projective.ProjectiveRepresentation(rep)
+        pw["b"] = projective.Transformation(C.copy(), column_vectors=True)
+        h.eq("original unchanged by assignment to a wrapped copy", rep["b"], B)
     elif which == 'conjugate':
         C = h.arr('c', (n, n))
         h.assume(_det(C) != 0, 'invertible conjugator')
@@ -191,12 +202,12 @@ def derived(h, which='conjugate', n=2, maxlen=2):
         h.eq(f"{which}[{w!r}]", new[w], f(rep[w]), validate=(len(w) <= 1))
 
 
-def fox(h, n=2, maxlen=3):
+def fox(h, n=2, maxlen=3, order='ab'):
     """fundamental formula of the Fox calculus and cocycle/coboundary annihilation"""
     A, B = _gens(h, n, 2)
     rep = representation.Representation()
-    rep["a"] = A.copy()
-    rep["b"] = B.copy()
+    for nm in order:
+        rep[nm] = (A if nm == 'a' else B).copy()
     I = np.zeros((n, n), dtype=A.dtype)
     for i in range(n):
         I[i, i] = 1
@@ -205,9 +216,12 @@ def fox(h, n=2, maxlen=3):
             continue
         rhs = sum((rep._differential(w, g) @ (rep[g] - I) for g in "ab"), 0 * I)
         h.eq(f"fox[{w!r}]", rep[w] - I, rhs, validate=(len(w) <= 2))
+    # matrix form: differential(w) @ coboundary_matrix() = I - rho(w)  (block orders of the two matrices must agree)
+    for w in ("ab", "bA", "abAB"[:max(2, maxlen)]):
+        h.eq(f"differential({w!r}) @ coboundary = I - rho(w)", rep.differential(w) @ rep.coboundary_matrix(), I - rep[w], validate=False)
     # differential(w) is the concatenation of the per-generator blocks, in generator order
     d = rep.differential("abA")
-    h.eq("blocks", d, np.concatenate([rep._differential("abA", "a"), rep._differential("abA", "b")], axis=-1))
+    h.eq("blocks", d, np.concatenate([rep._differential("abA", g) for g in order], axis=-1))
 
 
 def cocycle(h, n=2):
